@@ -277,6 +277,170 @@ func c05PreludeScenarios() (scs []c05Scenario) {
 			add(c05CliSpec{Name: "tags", IPs: []string{"10.70.0.6"}, Tags: []string{"nosuchtag", ""}}),
 			add(c05CliSpec{Name: "ups", IPs: []string{"10.70.0.7"}, Upstreams: []string{"[/a/]", "sdns://bogus", "tls://"}}), del("dup"), del("tags"), del("ups")),
 	)
+	scs = append(scs, c05ClientIDScenarios()...)
+	return scs
+}
+
+// ---- pool "clientid" (round 6): requests that take every way through the
+// ClientID extraction (Server.clientIDFromDNSContext: path of a DoH request,
+// else the server name of the TLS state / connection, else the Host header of
+// a plain-HTTP DoH request), the failing ones above all, each followed by the
+// admin requests that WRITE the server lock and by plain queries.  What is
+// searched is what such a request leaves behind: the request itself is
+// answered (SERVFAIL / REFUSED are well-formed answers); a read lock it kept
+// shows when access/set or protection never returns and the query after it
+// gets no answer.  The shapes are those of the C16 generator
+// (harness/dnsforward/zz_verif_C16_test.go: labels, Host header forms, path
+// targets, SNI forms), restated for the same reason as the rewrite shapes.
+
+// c05TLSName is tls.server_name of the rig of the hostile-data child.
+const c05TLSName = "dns.c05.example"
+
+// c05ServerLockWrites: the admin requests that take Server.serverLock for
+// writing and change nothing else of substance.
+func c05ServerLockWrites() []c05Op {
+	return []c05Op{
+		c05HTTP("POST", "/control/access/set", `{"allowed_clients":[],"disallowed_clients":["192.0.2.77"],"blocked_hosts":[]}`),
+		c05HTTP("POST", "/control/protection", `{"enabled":true,"duration":0}`),
+		c05HTTP("POST", "/control/dns_config", `{"blocked_response_ttl":10}`),
+	}
+}
+
+func c05ClientIDScenario(label string, reqs ...c05Op) c05Scenario {
+	sc := c05Scenario{label: "clientid/" + label, ops: reqs, probes: []c05Op{c05Q("ok.example", dns.TypeA)}}
+	sc.ops = append(sc.ops, c05ServerLockWrites()...)
+	// the same requests again, with the writers behind them
+	sc.ops = append(sc.ops, reqs...)
+	return sc
+}
+
+func c05ClientIDScenarios() (scs []c05Scenario) {
+	S := c05ClientIDScenario
+	h := c05TLSName
+	doh := func(path, host string, hasTLS bool, sni string) c05Op {
+		return c05Req("doh", path, host, hasTLS, sni, "")
+	}
+	dot := func(conn, sni string) c05Op { return c05Req("dot", "", "", false, sni, conn) }
+	doq := func(conn, sni string) c05Op { return c05Req("doq", "", "", false, sni, conn) }
+	l63, l64 := strings.Repeat("x", 63), strings.Repeat("y", 64)
+	scs = append(scs,
+		// --- DoH, ClientID in the path
+		S("doh-path-id", doh("/dns-query/cli-a", h, true, h)),
+		S("doh-path-id-uppercase", doh("/dns-query/MyPhone", h, true, h)),
+		S("doh-path-id-invalid", doh("/dns-query/bad_id!", h, true, h), doh("/dns-query/-bad", h, true, h), doh("/dns-query/"+l64, h, true, h)),
+		S("doh-path-extra-parts", doh("/dns-query/a/b", h, true, h), doh("/dns-query/a/b/c", h, false, "")),
+		S("doh-path-not-dns-query", doh("/", h, true, h), doh("/foo/cli", h, true, h), doh("/dns-queryx/cli", h, false, "")),
+		S("doh-path-dots-and-doubles", doh("//dns-query//cli", h, true, h), doh("/x/../dns-query/cli", h, true, h), doh("/dns-query/cli/..", h, true, h), doh("/dns-query/./", h, true, h)),
+		// --- DoH over TLS, no ClientID in the path: the server name of the TLS state
+		S("doh-tls-sni-equal", doh("/dns-query", h, true, h)),
+		S("doh-tls-sni-id", doh("/dns-query", "ignored.example", true, "cli-b."+h), doh("/dns-query/", h, true, l63+"."+h)),
+		S("doh-tls-sni-empty", doh("/dns-query", h, true, "")),
+		S("doh-tls-sni-other-name", doh("/dns-query", h, true, "other.example"), doh("/dns-query", h, true, "cli"+h), doh("/dns-query", h, true, h+".evil.example")),
+		S("doh-tls-sni-two-labels", doh("/dns-query", h, true, "a.b."+h)),
+		S("doh-tls-sni-invalid-id", doh("/dns-query", h, true, "bad_id!."+h), doh("/dns-query", h, true, "-bad."+h), doh("/dns-query", h, true, l64+"."+h), doh("/dns-query", h, true, "."+h)),
+		// --- DoH over plain HTTP (behind a reverse proxy): the Host header
+		S("doh-plain-host", doh("/dns-query", h, false, "")),
+		S("doh-plain-host-port", doh("/dns-query", h+":443", false, ""), doh("/dns-query", h+":", false, "")),
+		S("doh-plain-host-id", doh("/dns-query", "cli-c."+h+":8443", false, "")),
+		S("doh-plain-host-empty", doh("/dns-query", "", false, "")),
+		S("doh-plain-host-two-ports", doh("/dns-query", h+":443:443", false, "")),
+		S("doh-plain-host-brackets", doh("/dns-query", "[::1]:443", false, ""), doh("/dns-query", "[::1]", false, ""), doh("/dns-query", "["+h+"]:53", false, "")),
+		S("doh-plain-host-malformed", doh("/dns-query", h+"]:53", false, ""), doh("/dns-query", "["+h+":53", false, ""), doh("/dns-query", "[["+h+"]:1", false, ""),
+			doh("/dns-query", "[a]:b]:1", false, ""), doh("/dns-query", "::", false, ""), doh("/dns-query", "["+h+"]x:53", false, "")),
+		S("doh-plain-host-other-name", doh("/dns-query", "other.example", false, ""), doh("/dns-query", "a.b."+h, false, "")),
+		S("doh-plain-host-invalid-id", doh("/dns-query", "bad_id!."+h, false, ""), doh("/dns-query", l64+"."+h+":443", false, "")),
+		// --- DoT and DoQ: the server name of the connection
+		S("dot-sni-equal-and-id", dot("tls", h), dot("tls", "cli-d."+h)),
+		S("dot-sni-empty", dot("tls", "")),
+		S("dot-sni-other-name", dot("tls", "other.example"), dot("tls", "a.b."+h)),
+		S("dot-sni-invalid-id", dot("tls", "bad_id!."+h), dot("tls", l64+"."+h)),
+		S("dot-connection-not-tls", dot("plain", ""), dot("none", "")),
+		S("doq-sni-equal-and-id", doq("tls", h), doq("tls", "cli-e."+h)),
+		S("doq-sni-other-name", doq("tls", "other.example"), doq("tls", "")),
+		S("doq-sni-invalid-id", doq("tls", "bad_id!."+h)),
+		S("doq-no-connection", doq("none", "")),
+	)
+	return scs
+}
+
+// c05RandomClientIDScenarios: seeded combinations over the same alphabets.
+func c05RandomClientIDScenarios(r *c05Rand, n int) (scs []c05Scenario) {
+	h := c05TLSName
+	labels := []string{"cli", "MyPhone", "a", "a-b", "0", "UPPER", "-bad", "bad-", "b_d", "a b", "!!!", "a%2fb", "\xc3\xbcn", "x--y",
+		strings.Repeat("x", 63), strings.Repeat("y", 64), "dns-query", "..", ".", "a.b", "a/b", ""}
+	pick := func(l []string) string { return l[r.intn(len(l))] }
+	name := func() string {
+		l := pick(labels)
+		switch r.intn(9) {
+		case 0:
+			return h
+		case 1, 2:
+			return l + "." + h
+		case 3:
+			return l + "." + pick(labels) + "." + h
+		case 4:
+			return l + ".example.org"
+		case 5:
+			return l + h
+		case 6:
+			return ""
+		case 7:
+			return "." + h
+		default:
+			return l + "." + h + "."
+		}
+	}
+	hostHdr := func(n string) string {
+		switch r.intn(10) {
+		case 0, 1, 2:
+			return n
+		case 3, 4:
+			return n + ":443"
+		case 5:
+			return n + ":"
+		case 6:
+			return pick([]string{"[::1]:443", "[::1]", "[" + n + "]:53", "[" + n + "]"})
+		case 7:
+			return pick([]string{n + ":1:2", n + "]:53", "[" + n + ":53", "[" + n + "]x:53", "[a]:b]:1", "[[" + n + "]:1", "::"})
+		case 8:
+			return ""
+		default:
+			return n + ":8443"
+		}
+	}
+	path := func() string {
+		l := pick(labels)
+		switch r.intn(9) {
+		case 0, 1, 2:
+			return "/dns-query"
+		case 3:
+			return "/dns-query/"
+		case 4, 5:
+			return "/dns-query/" + l
+		case 6:
+			return "/dns-query/" + l + "/" + pick(labels)
+		case 7:
+			return "//dns-query//" + l
+		default:
+			return pick([]string{"/", "/foo", "/x/../dns-query/" + l, "/dns-query/" + l + "/..", "/DNS-Query/" + l})
+		}
+	}
+	for i := 0; i < n; i++ {
+		var reqs []c05Op
+		for k := 1 + r.intn(3); k > 0; k-- {
+			switch r.intn(6) {
+			case 0, 1:
+				reqs = append(reqs, c05Req("doh", path(), hostHdr(name()), false, "", ""))
+			case 2, 3:
+				reqs = append(reqs, c05Req("doh", path(), hostHdr(name()), true, name(), ""))
+			case 4:
+				reqs = append(reqs, c05Req("dot", "", "", false, name(), pick([]string{"tls", "tls", "tls", "plain", "none"})))
+			default:
+				reqs = append(reqs, c05Req("doq", "", "", false, name(), pick([]string{"tls", "tls", "none"})))
+			}
+		}
+		scs = append(scs, c05ClientIDScenario(fmt.Sprintf("random-%d", i), reqs...))
+	}
 	return scs
 }
 
